@@ -87,7 +87,7 @@ import nfc.tag.tt4
 
 from vlib import isodep_card, ref_felica, simfelica, simntag, simnxp, tagdev
 from vlib import vsched
-from vlib.engine import HarnessError, Leg, Violation, unexpected
+from vlib.engine import HarnessError, Leg, Violation, unexpected, twin_env
 from props import tagcommon as tc
 
 PROPERTY = "C16"
@@ -2181,3 +2181,10 @@ LEGS = [
              "= the burst hit the operation and a later operation on the "
              "same tag object had write commands executed."),
 ]
+
+# the same searches with every nfc logger enabled down to the lowest level
+# (code that only runs, or only evaluates its arguments, when logging is on)
+_byl = dict((lg.name, lg) for lg in LEGS)
+LEGS += [twin_env(_byl[n], "log", {"VERIF_LOG": "debug"}, quick=q, thorough=t,
+                  shards_quick=2)
+         for n, q, t in [('generated', 300, 3000)] if n in _byl]
